@@ -68,6 +68,14 @@ func (e *Embed) GenerateOutput(textOnly bool) string {
 	// TODO: Maybe just to be save we should sanitize it.
 	tagName := dom.TagName(e.Element)
 	if tagName == "blockquote" || tagName == "iframe" {
+		// Non-rendered descendants (script, style, hidden elements) must not
+		// be carried into the output along with the embed.
+		for _, child := range dom.GetElementsByTagName(e.Element, "*") {
+			if !domutil.IsProbablyVisible(child) {
+				dom.DetachChild(child)
+			}
+		}
+
 		domutil.StripAttributes(e.Element)
 		dom.AppendChild(embed, e.Element)
 	}
